@@ -603,30 +603,348 @@ Proof.
     inversion H1; subst. assumption.
 Qed.
 
-(* the main statement, under the guard the code needs, for any complete
-   surface dictionary with distinct keys *)
+(* ---- every entry of conversionBoundCond is sound --------------------------- *)
+
+(* every entry comes from a flagged entry of the dictionary *)
+Lemma bc_entry_key t l kd k :
+  bc_entries t = Ok l -> In (kd, k) l -> exists e, In (k, e) t /\ e_flag e <> "".
+Proof.
+  unfold bc_entries. intros H Hin. destruct (recuperate t) as [l0|] eqn:Er; [|discriminate].
+  assert (Hk : In k (map snd l)) by (apply in_map_iff; exists (kd, k); auto).
+  rewrite (conv_kinds_keys _ _ _ H), (recuperate_keys _ _ Er) in Hk.
+  apply in_map_iff in Hk. destruct Hk as [[k' e] [Hk Hf]]. cbn in Hk. subst k'.
+  apply filter_In in Hf. destruct Hf as [Hin' Hfl]. exists e. split; [assumption|].
+  cbn in Hfl. unfold flagged in Hfl. intros Hc. rewrite Hc in Hfl. discriminate.
+Qed.
+
+Lemma count_one_unique k l : forall a b,
+  count_key k l = 1%nat -> In (a, k) l -> In (b, k) l -> a = b.
+Proof.
+  unfold count_key. induction l as [|[kd k'] r IH]; intros a b Hc Ha Hb; [destruct Ha|].
+  cbn in Hc. destruct (N.eqb k' k) eqn:E.
+  - cbn in Hc. assert (Hz : List.length (filter (fun x => N.eqb (snd x) k) r) = 0%nat) by lia.
+    assert (Hno : forall x, In (x, k) r -> False).
+    { intros x Hx. assert (Hf : In (x, k) (filter (fun y => N.eqb (snd y) k) r)).
+      { apply filter_In. split; [assumption|]. cbn. apply N.eqb_refl. }
+      destruct (filter (fun y => N.eqb (snd y) k) r); [destruct Hf|discriminate]. }
+    destruct Ha as [Ha|Ha]; [|exfalso; eapply Hno; eauto].
+    destruct Hb as [Hb|Hb]; [|exfalso; eapply Hno; eauto].
+    congruence.
+  - destruct Ha as [Ha|Ha]; [inversion Ha; subst; rewrite N.eqb_refl in E; discriminate|].
+    destruct Hb as [Hb|Hb]; [inversion Hb; subst; rewrite N.eqb_refl in E; discriminate|].
+    eapply IH; eauto.
+Qed.
+
+(* ... and has the kind of that entry's flag *)
+Theorem bc_entry_sound t l kd k :
+  NoDup (map fst t) -> bc_entries t = Ok l -> In (kd, k) l ->
+  exists e, In (k, e) t /\ e_flag e <> "" /\
+    (e_flag e = "*" -> kd = Reflection) /\ (e_flag e = "+" -> kd = Cosinus).
+Proof.
+  intros Hnd H Hin. destruct (bc_entry_key _ _ _ _ H Hin) as [e [He Hf]].
+  exists e. split; [assumption|]. split; [assumption|].
+  pose proof (bc_one_per_flag t l k e Hnd H He) as Hc.
+  destruct (String.eqb (e_flag e) "") eqn:E0; [apply String.eqb_eq in E0; contradiction|].
+  destruct (bc_kind t l k e H He) as [Hs [Hp _]].
+  split; intros Hfl.
+  - eapply count_one_unique; eauto.
+  - eapply count_one_unique; eauto.
+Qed.
+
+(* ---- distinct ids in the TRIPOLI-4 numbering ----------------------------- *)
+
+Lemma nodup_app {A} (a b : list A) :
+  NoDup a -> NoDup b -> (forall x, In x a -> ~ In x b) -> NoDup (a ++ b).
+Proof.
+  induction a as [|x r IH]; intros Ha Hb Hd; cbn; [assumption|].
+  inversion Ha as [|? ? Hn Hr]; subst. constructor.
+  - intros Hin. apply in_app_or in Hin. destruct Hin as [Hin|Hin]; [contradiction|].
+    apply (Hd x); [left; reflexivity|assumption].
+  - apply IH; [assumption|assumption|]. intros y Hy. apply Hd. right. assumption.
+Qed.
+
+Lemma in_dict_get {V} k (v : V) d : NoDup (map fst d) -> In (k, v) d -> dict_get k d = Some v.
+Proof.
+  induction d as [|[k' v'] r IH]; intros Hnd Hin; [destruct Hin|]. cbn in *.
+  inversion Hnd as [|? ? Hn Hr]; subst. destruct (N.eqb k k') eqn:E.
+  - apply N.eqb_eq in E. subst k'. destruct Hin as [Hin|Hin]; [congruence|].
+    exfalso. apply Hn. apply in_map_iff. exists (k, v). auto.
+  - destruct Hin as [Hin|Hin]; [inversion Hin; subst; rewrite N.eqb_refl in E; discriminate|].
+    apply IH; assumption.
+Qed.
+
+Lemma number_aux_keys aux : forall free,
+  (free <= snd (number_aux aux free))%N /\
+  (forall x, In x (map fst (fst (number_aux aux free))) ->
+             (free <= x < snd (number_aux aux free))%N) /\
+  NoDup (map fst (fst (number_aux aux free))).
+Proof.
+  induction aux as [|d r IH]; intros free; cbn.
+  - split; [lia|]. split; [intros x []|constructor].
+  - destruct (number_aux r (N.succ free)) as [nb free'] eqn:E.
+    specialize (IH (N.succ free)). rewrite E in IH. cbn in IH. destruct IH as [H1 [H2 H3]].
+    cbn. split; [lia|]. split.
+    + intros x [Hx|Hx]; [lia|]. specialize (H2 x Hx). lia.
+    + constructor; [|assumption]. intros Hin. specialize (H2 free Hin). lia.
+Qed.
+
+Lemma number_from_keys t : forall free,
+  (forall k e, In (k, e) t -> (k < free)%N) ->
+  forall x, In x (map fst (number_from t free)) -> In x (map fst t) \/ (free <= x)%N.
+Proof.
+  induction t as [|[k0 e0] r IH]; intros free Hlt x Hx; [destruct Hx|]. cbn in Hx.
+  destruct (number_aux (e_aux e0) free) as [nb free'] eqn:E.
+  pose proof (number_aux_keys (e_aux e0) free) as Hs. rewrite E in Hs. cbn in Hs.
+  destruct Hs as [Hfree [Hkeys _]]. cbn in Hx.
+  destruct Hx as [Hx|Hx]; [left; left; assumption|].
+  rewrite map_app in Hx. apply in_app_or in Hx. destruct Hx as [Hx|Hx].
+  - specialize (Hkeys x Hx). right. lia.
+  - assert (Hlt' : forall k e, In (k, e) r -> (k < free')%N).
+    { intros k e Hin. specialize (Hlt k e (or_intror Hin)). lia. }
+    destruct (IH free' Hlt' x Hx) as [H|H]; [left; right; assumption|right; lia].
+Qed.
+
+Lemma number_from_nodup t : forall free,
+  NoDup (map fst t) -> (forall k e, In (k, e) t -> (k < free)%N) ->
+  NoDup (map fst (number_from t free)).
+Proof.
+  induction t as [|[k0 e0] r IH]; intros free Hnd Hlt; [constructor|]. cbn.
+  destruct (number_aux (e_aux e0) free) as [nb free'] eqn:E.
+  pose proof (number_aux_keys (e_aux e0) free) as Hs. rewrite E in Hs. cbn in Hs.
+  destruct Hs as [Hfree [Hkeys Hnb]]. cbn in Hnd. inversion Hnd as [|? ? Hn Hr]; subst.
+  assert (Hk0 : (k0 < free)%N) by (apply (Hlt k0 e0); left; reflexivity).
+  assert (Hlt' : forall k e, In (k, e) r -> (k < free')%N).
+  { intros k e Hin. specialize (Hlt k e (or_intror Hin)). lia. }
+  assert (Hrest : forall x, In x (map fst (number_from r free')) ->
+                            In x (map fst r) \/ (free' <= x)%N)
+    by (apply number_from_keys; assumption).
+  cbn. constructor.
+  - rewrite map_app. intros Hin. apply in_app_or in Hin. destruct Hin as [Hin|Hin].
+    + specialize (Hkeys k0 Hin). lia.
+    + destruct (Hrest k0 Hin) as [H|H]; [contradiction|lia].
+  - rewrite map_app. apply nodup_app; [assumption|apply IH; assumption|].
+    intros x Ha Hb. specialize (Hkeys x Ha). destruct (Hrest x Hb) as [H|H]; [|lia].
+    apply in_map_iff in H. destruct H as [[k e] [Hk Hin]]. cbn in Hk. subst k.
+    specialize (Hlt x e (or_intror Hin)). lia.
+Qed.
+
+Lemma number_items_nodup t : NoDup (map fst t) -> NoDup (map fst (number_items t)).
+Proof.
+  intros Hnd. unfold number_items. apply number_from_nodup; [assumption|].
+  intros k e Hin. pose proof (max_key_ge t k e Hin). lia.
+Qed.
+
+(* the representative of a key of the dictionary carries the same descriptor *)
+Lemma rep_descriptor dedup t k e :
+  NoDup (map fst t) -> In (k, e) t ->
+  repr_of dedup (number_items t) k = Some (rep dedup (number_items t) k) /\
+  dict_get (rep dedup (number_items t) k) (number_items t) = Some (e_first e).
+Proof.
+  intros Hnd Hin. pose proof (number_items_get t k e Hnd Hin) as Hd.
+  unfold rep, repr_of. rewrite Hd. destruct dedup; [|auto].
+  destruct (min_with_some (e_first e) (number_items t) k (dict_get_In _ _ _ Hd)) as [m Hm].
+  rewrite Hm. split; [reflexivity|].
+  destruct (min_with_spec _ _ _ Hm) as [Hmin _].
+  apply in_dict_get; [apply number_items_nodup; assumption|assumption].
+Qed.
+
+(* ---- the repaired block: merge_entries ---------------------------------- *)
+
+Lemma memN_In k l : memN k l = true <-> In k l.
+Proof.
+  unfold memN. rewrite existsb_exists. split.
+  - intros [x [Hx He]]. apply N.eqb_eq in He. subst. assumption.
+  - intros H. exists k. split; [assumption|apply N.eqb_refl].
+Qed.
+
+Lemma kind_eqb_eq a b : kind_eqb a b = true <-> a = b.
+Proof. destruct a, b; cbn; split; intros H; try reflexivity; discriminate. Qed.
+
+Lemma kind_lookup_app k a b x :
+  kind_lookup k a = Some x -> kind_lookup k (a ++ b) = Some x.
+Proof.
+  induction a as [|[kd k'] r IH]; cbn; [discriminate|].
+  destruct (N.eqb k k'); [auto|]. apply IH.
+Qed.
+
+Lemma kind_lookup_app_none k a b :
+  kind_lookup k a = None -> kind_lookup k (a ++ b) = kind_lookup k b.
+Proof.
+  induction a as [|[kd k'] r IH]; cbn; [reflexivity|].
+  destruct (N.eqb k k'); [discriminate|]. apply IH.
+Qed.
+
+Lemma kind_lookup_in k l x : kind_lookup k l = Some x -> In (x, k) l.
+Proof.
+  induction l as [|[kd k'] r IH]; cbn; [discriminate|].
+  destruct (N.eqb k k') eqn:E.
+  - apply N.eqb_eq in E. subst. intros H. inversion H. left. reflexivity.
+  - intros H. right. apply IH. assumption.
+Qed.
+
+Lemma kind_lookup_none k l : kind_lookup k l = None -> ~ In k (map snd l).
+Proof.
+  induction l as [|[kd k'] r IH]; cbn; [intros _ []|].
+  destruct (N.eqb k k') eqn:E; [discriminate|]. intros H [Hc|Hc].
+  - subst. rewrite N.eqb_refl in E. discriminate.
+  - apply IH; assumption.
+Qed.
+
+Lemma merge_entries_err dedup nb used l : forall acc e,
+  merge_entries dedup nb used l acc = Err e -> e = EValue.
+Proof.
+  induction l as [|[kd k] r IH]; intros acc e H; cbn in H; [discriminate|].
+  destruct (memN (rep dedup nb k) used); [|eapply IH; eauto].
+  destruct (kind_lookup (rep dedup nb k) acc) as [kd0|]; [|eapply IH; eauto].
+  destruct (kind_eqb kd0 kd); [eapply IH; eauto|]. inversion H. reflexivity.
+Qed.
+
+Lemma merge_entries_spec dedup nb used l : forall acc out,
+  merge_entries dedup nb used l acc = Ok out ->
+  (exists ext, out = (acc ++ ext)%list) /\
+  (forall kd k, In (kd, k) l -> memN (rep dedup nb k) used = true ->
+                kind_lookup (rep dedup nb k) out = Some kd) /\
+  (forall kd k', In (kd, k') out -> In (kd, k') acc \/
+     exists k, In (kd, k) l /\ rep dedup nb k = k' /\ memN k' used = true) /\
+  (NoDup (map snd acc) -> NoDup (map snd out)).
+Proof.
+  induction l as [|[kd k] r IH]; intros acc out H; cbn in H.
+  - inversion H; subst. split; [exists []; rewrite app_nil_r; reflexivity|].
+    split; [intros ? ? []|]. split; [auto|auto].
+  - destruct (memN (rep dedup nb k) used) eqn:Eu.
+    + destruct (kind_lookup (rep dedup nb k) acc) as [kd0|] eqn:El.
+      * destruct (kind_eqb kd0 kd) eqn:Ek; [|discriminate].
+        apply kind_eqb_eq in Ek. subst kd0.
+        destruct (IH _ _ H) as [[ext Hext] [H2 [H3 H4]]].
+        split; [exists ext; assumption|]. split; [|split; [|assumption]].
+        -- intros kd' k0 [Heq|Hin] Hu; [|auto]. inversion Heq; subst kd' k0.
+           rewrite Hext. apply kind_lookup_app. assumption.
+        -- intros kd' k' Hin. destruct (H3 kd' k' Hin) as [Ha|[k0 [Hb Hc]]]; [auto|].
+           right. exists k0. split; [right; assumption|assumption].
+      * destruct (IH _ _ H) as [[ext Hext] [H2 [H3 H4]]].
+        split; [exists ((kd, rep dedup nb k) :: ext); rewrite Hext, <- app_assoc; reflexivity|].
+        split; [|split].
+        -- intros kd' k0 [Heq|Hin] Hu; [|auto]. inversion Heq; subst kd' k0.
+           rewrite Hext. apply kind_lookup_app. rewrite kind_lookup_app_none by assumption.
+           cbn. rewrite N.eqb_refl. reflexivity.
+        -- intros kd' k' Hin. destruct (H3 kd' k' Hin) as [Ha|[k0 [Hb Hc]]].
+           ++ apply in_app_or in Ha. destruct Ha as [Ha|[Ha|[]]]; [auto|].
+              inversion Ha; subst kd' k'. right. exists k. split; [left; reflexivity|auto].
+           ++ right. exists k0. split; [right; assumption|assumption].
+        -- intros Hnd. apply H4. rewrite map_app. apply nodup_app; [assumption| |].
+           ++ cbn. constructor; [intros []|constructor].
+           ++ intros x Hx [Hy|[]]. cbn in Hy. subst x.
+              apply (kind_lookup_none _ _ El). assumption.
+    + destruct (IH _ _ H) as [Hext [H2 [H3 H4]]].
+      split; [assumption|]. split; [|split; [|assumption]].
+      * intros kd' k0 [Heq|Hin] Hu; [|auto]. inversion Heq; subst kd' k0. congruence.
+      * intros kd' k' Hin. destruct (H3 kd' k' Hin) as [Ha|[k0 [Hb Hc]]]; [auto|].
+        right. exists k0. split; [right; assumption|assumption].
+Qed.
+
+Lemma finish_unfold cfg t cells surfs bcs :
+  skip_bc cfg = false -> finish cfg t cells = Ok (surfs, bcs) ->
+  geometry (negb (skip_dedup cfg)) t cells = Ok surfs /\
+  exists l, bc_entries t = Ok l /\
+    merge_entries (negb (skip_dedup cfg)) (number_items t) (map fst surfs) l [] = Ok bcs.
+Proof.
+  intros Hs H. unfold finish in H. cbv zeta in H.
+  destruct (geometry (negb (skip_dedup cfg)) t cells) as [surfs'|] eqn:Egeo; [|discriminate].
+  rewrite Hs in H. destruct (bc_entries t) as [l|] eqn:Ebc; [|discriminate].
+  destruct (merge_entries (negb (skip_dedup cfg)) (number_items t) (map fst surfs') l [])
+    as [bcs'|] eqn:Em; [|discriminate].
+  inversion H; subst. split; [reflexivity|]. exists l. auto.
+Qed.
+
+Lemma count_key_nodup k (l : list (kind * N)) kd :
+  NoDup (map snd l) -> In (kd, k) l -> count_key k l = 1%nat.
+Proof.
+  intros Hnd Hin. rewrite count_key_map, count_nodup by assumption.
+  assert (He : existsb (N.eqb k) (map snd l) = true).
+  { apply existsb_exists. exists k. split; [|apply N.eqb_refl].
+    apply in_map_iff. exists (kd, k). auto. }
+  rewrite He. reflexivity.
+Qed.
+
+(* the main statement, no guard: a flagged surface that bounds a surviving
+   converted cell has exactly one entry, of the kind of its flag, on its
+   representative, which is a written SURF with the surface's own descriptor *)
 Lemma finish_designates cfg t cells surfs bcs k e :
   skip_bc cfg = false -> NoDup (map fst t) ->
   finish cfg t cells = Ok (surfs, bcs) ->
   In (k, e) t -> (e_flag e = "*" \/ e_flag e = "+") ->
   (exists c, In c cells /\ survives (negb (skip_dedup cfg)) (number_items t) c /\ bounds c k) ->
-  (skip_dedup cfg = true \/ smallest_dup (number_items t) k) ->
-  In (kind_of (e_flag e), k) bcs /\ In (k, e_first e) surfs.
+  let k' := rep (negb (skip_dedup cfg)) (number_items t) k in
+  In (kind_of (e_flag e), k') bcs /\ count_key k' bcs = 1%nat /\ In (k', e_first e) surfs.
 Proof.
-  intros Hs Hnd Hrun Hin Hf [c [Hc [Hsv Hb]]] Hg.
-  unfold finish in Hrun.
-  destruct (geometry (negb (skip_dedup cfg)) t cells) as [surfs'|] eqn:Egeo; [|discriminate].
-  rewrite Hs in Hrun. destruct (bc_entries t) as [bcs'|] eqn:Ebc; [|discriminate].
-  inversion Hrun; subst surfs' bcs'. clear Hrun.
-  split.
-  - destruct (bc_kind t bcs k e Ebc Hin) as [H1 [H2 _]].
-    destruct Hf as [Hf|Hf]; rewrite Hf; cbn; auto.
-  - apply (written_surfaces_exact _ _ _ _ k (e_first e) Egeo).
-    pose proof (number_items_get t k e Hnd Hin) as Hd. split; [assumption|].
-    exists c, k. repeat split; auto.
-    apply (repr_of_self _ _ _ _ Hd). destruct Hg as [Hg|Hg]; [left|right; assumption].
-    rewrite Hg. reflexivity.
+  intros Hs Hnd Hfin Hin Hf [c [Hc [Hsv Hb]]] k'.
+  destruct (finish_unfold _ _ _ _ _ Hs Hfin) as [Egeo [l [Ebc Em]]].
+  destruct (rep_descriptor (negb (skip_dedup cfg)) t k e Hnd Hin) as [Hrep Hdesc]. fold k' in Hrep, Hdesc.
+  assert (Hsurf : In (k', e_first e) surfs).
+  { apply (written_surfaces_exact _ _ _ _ k' (e_first e) Egeo). split; [assumption|].
+    exists c, k. auto. }
+  destruct (merge_entries_spec _ _ _ _ _ _ Em) as [_ [H2 [_ H4]]].
+  assert (Hl : In (kind_of (e_flag e), k) l).
+  { destruct (bc_kind t l k e Ebc Hin) as [H1 [H1' _]].
+    destruct Hf as [Hf|Hf]; rewrite Hf; cbn; auto. }
+  assert (Hu : memN k' (map fst surfs) = true).
+  { apply memN_In. apply in_map_iff. exists (k', e_first e). auto. }
+  pose proof (kind_lookup_in _ _ _ (H2 _ _ Hl Hu)) as Hbc. fold k' in Hbc.
+  split; [assumption|]. split; [|assumption].
+  eapply count_key_nodup; [apply H4; constructor|exact Hbc].
 Qed.
+
+(* ... and every entry written designates a written SURF, which carries the
+   descriptor of a flagged surface of the entry's kind; no two entries
+   designate the same SURF *)
+Lemma finish_sound cfg t cells surfs bcs :
+  skip_bc cfg = false -> NoDup (map fst t) ->
+  finish cfg t cells = Ok (surfs, bcs) ->
+  NoDup (map snd bcs) /\
+  forall kd k', In (kd, k') bcs ->
+    exists k e, In (k, e) t /\ e_flag e <> "" /\
+      (e_flag e = "*" -> kd = Reflection) /\ (e_flag e = "+" -> kd = Cosinus) /\
+      rep (negb (skip_dedup cfg)) (number_items t) k = k' /\ In (k', e_first e) surfs.
+Proof.
+  intros Hs Hnd Hfin.
+  destruct (finish_unfold _ _ _ _ _ Hs Hfin) as [Egeo [l [Ebc Em]]].
+  destruct (merge_entries_spec _ _ _ _ _ _ Em) as [_ [_ [H3 H4]]].
+  split; [apply H4; constructor|].
+  intros kd k' Hin. destruct (H3 kd k' Hin) as [[]|[k [Hl [Hr Hu]]]].
+  destruct (bc_entry_sound t l kd k Hnd Ebc Hl) as [e [He [Hf [Hstar Hplus]]]].
+  exists k, e. repeat (split; [assumption|]).
+  destruct (rep_descriptor (negb (skip_dedup cfg)) t k e Hnd He) as [_ Hdesc]. rewrite Hr in Hdesc.
+  apply memN_In in Hu. apply in_map_iff in Hu. destruct Hu as [[k0 d] [Hk0 Hd]]. cbn in Hk0. subst k0.
+  destruct (proj1 (written_surfaces_exact _ _ _ _ k' d Egeo) Hd) as [Hd' _].
+  rewrite Hdesc in Hd'. inversion Hd'; subst. assumption.
+Qed.
+
+(* two coincident surfaces flagged differently whose common representative is
+   written: the run stops with a ValueError *)
+Lemma finish_conflict cfg t cells surfs k1 e1 k2 e2 :
+  skip_bc cfg = false -> NoDup (map fst t) -> proper t ->
+  geometry (negb (skip_dedup cfg)) t cells = Ok surfs ->
+  In (k1, e1) t -> e_flag e1 = "*" -> In (k2, e2) t -> e_flag e2 = "+" ->
+  rep (negb (skip_dedup cfg)) (number_items t) k1 = rep (negb (skip_dedup cfg)) (number_items t) k2 ->
+  In (rep (negb (skip_dedup cfg)) (number_items t) k1) (map fst surfs) ->
+  finish cfg t cells = Err EValue.
+Proof.
+  intros Hs Hnd Hp Egeo H1 Hf1 H2 Hf2 Hrep Hused.
+  unfold finish. cbv zeta. rewrite Egeo, Hs.
+  pose proof (bc_entries_exact t Hp) as Ebc. rewrite Ebc.
+  destruct (merge_entries (negb (skip_dedup cfg)) (number_items t) (map fst surfs)
+              (flat_map entry_of t) []) as [bcs|x] eqn:Em.
+  - exfalso. destruct (merge_entries_spec _ _ _ _ _ _ Em) as [_ [Hl _]].
+    destruct (bc_kind t _ k1 e1 Ebc H1) as [Hs1 _].
+    destruct (bc_kind t _ k2 e2 Ebc H2) as [_ [Hp2 _]].
+    apply memN_In in Hused.
+    pose proof (Hl _ _ (Hs1 Hf1) Hused) as L1.
+    rewrite Hrep in Hused. pose proof (Hl _ _ (Hp2 Hf2) Hused) as L2.
+    rewrite Hrep in L1. rewrite L1 in L2. discriminate.
+  - rewrite (merge_entries_err _ _ _ _ _ _ Em). reflexivity.
+Qed.
+
+(* ---- the run -------------------------------------------------------------- *)
 
 Theorem bc_designates_present_same_locus cfg cards cells t surfs bcs k e :
   skip_bc cfg = false ->
@@ -634,60 +952,53 @@ Theorem bc_designates_present_same_locus cfg cards cells t surfs bcs k e :
   run cfg cards cells = Ok (surfs, bcs) ->
   In (k, e) t -> (e_flag e = "*" \/ e_flag e = "+") ->
   (exists c, In c cells /\ survives (negb (skip_dedup cfg)) (number_items t) c /\ bounds c k) ->
-  (skip_dedup cfg = true \/ smallest_dup (number_items t) k) ->
-  In (kind_of (e_flag e), k) bcs /\ In (k, e_first e) surfs.
+  let k' := rep (negb (skip_dedup cfg)) (number_items t) k in
+  In (kind_of (e_flag e), k') bcs /\ count_key k' bcs = 1%nat /\ In (k', e_first e) surfs.
 Proof.
   intros Hs Hp Hrun. unfold run in Hrun. rewrite Hp in Hrun.
   eapply finish_designates; eauto. eapply parsed_keys_distinct; eauto.
 Qed.
 
-(* ---- the statement is false without the guard --------------------------- *)
+Theorem bc_entries_designate_written cfg cards cells t surfs bcs :
+  skip_bc cfg = false ->
+  parse_cards cards [] = Ok t ->
+  run cfg cards cells = Ok (surfs, bcs) ->
+  NoDup (map snd bcs) /\
+  forall kd k', In (kd, k') bcs ->
+    exists k e, In (k, e) t /\ e_flag e <> "" /\
+      (e_flag e = "*" -> kd = Reflection) /\ (e_flag e = "+" -> kd = Cosinus) /\
+      rep (negb (skip_dedup cfg)) (number_items t) k = k' /\ In (k', e_first e) surfs.
+Proof.
+  intros Hs Hp Hrun. unfold run in Hrun. rewrite Hp in Hrun.
+  eapply finish_sound; eauto. eapply parsed_keys_distinct; eauto.
+Qed.
 
-(* *2 PX 0 and *3 PX 0 (class 7), the cell uses 3: entry for 3, SURF 2 only *)
+Theorem conflicting_flags_rejected cfg cards cells t surfs k1 e1 k2 e2 :
+  skip_bc cfg = false ->
+  parse_cards cards [] = Ok t -> proper t ->
+  geometry (negb (skip_dedup cfg)) t cells = Ok surfs ->
+  In (k1, e1) t -> e_flag e1 = "*" -> In (k2, e2) t -> e_flag e2 = "+" ->
+  rep (negb (skip_dedup cfg)) (number_items t) k1 = rep (negb (skip_dedup cfg)) (number_items t) k2 ->
+  In (rep (negb (skip_dedup cfg)) (number_items t) k1) (map fst surfs) ->
+  run cfg cards cells = Err EValue.
+Proof.
+  intros Hs Hp Hpr Egeo H1 Hf1 H2 Hf2 Hrep Hused. unfold run. rewrite Hp.
+  eapply (finish_conflict cfg t cells surfs k1 e1 k2 e2); try assumption.
+  eapply parsed_keys_distinct; eauto.
+Qed.
+
+(* ---- the decks that failed before the repair ----------------------------- *)
+
+(* *2 PX 0 and *3 PX 0 (class 7), the cell uses 3: one entry, on SURF 2 *)
 Definition w_dedup_cards : list scard :=
   [mkS "1" 1 5 []; mkS "*2" 1 7 []; mkS "*3" 1 7 []; mkS "4" 1 9 []].
 Definition w_dedup_cells : list cell := [(1%N, [(-1)%Z; 3%Z; (-4)%Z])].
 
-Theorem bc_dedup_refuted :
-  exists t surfs bcs k e c,
-    parse_cards w_dedup_cards [] = Ok t /\
-    run (mkCfg false false) w_dedup_cards w_dedup_cells = Ok (surfs, bcs) /\
-    In (k, e) t /\ e_flag e = "*" /\
-    In c w_dedup_cells /\ survives true (number_items t) c /\ bounds c k /\
-    In (Reflection, k) bcs /\ ~ In k (map fst surfs).
-Proof.
-  eexists. exists [(1, 5); (2, 7); (4, 9)]%N, [(Reflection, 2%N); (Reflection, 3%N)], 3%N.
-  eexists. exists (1%N, [(-1)%Z; 3%Z; (-4)%Z]).
-  split; [vm_compute; reflexivity|].
-  split; [vm_compute; reflexivity|].
-  split; [right; right; left; reflexivity|].
-  split; [reflexivity|].
-  split; [left; reflexivity|].
-  split; [exists [2%N], [1%N; 4%N]; repeat split; vm_compute; reflexivity|].
-  split; [left; left; reflexivity|].
-  split; [right; left; reflexivity|].
-  cbn. intros [H|[H|[H|[]]]]; discriminate.
-Qed.
-
-(* *5 PY 7 is used by no cell: entry for 5, no SURF 5 *)
+(* *5 PY 7 is used by no cell: no entry *)
 Definition w_unused_cards : list scard :=
   [mkS "1" 1 5 []; mkS "2" 1 7 []; mkS "4" 1 9 []; mkS "*5" 1 11 []].
 Definition w_unused_cells : list cell := [(1%N, [(-1)%Z; 2%Z; (-4)%Z])].
 
-Theorem bc_unused_refuted :
-  exists t surfs bcs e,
-    parse_cards w_unused_cards [] = Ok t /\
-    (forall dedup, run (mkCfg dedup false) w_unused_cards w_unused_cells = Ok (surfs, bcs)) /\
-    In (5%N, e) t /\ e_flag e = "*" /\ smallest_dup (number_items t) 5 /\
-    In (Reflection, 5%N) bcs /\ ~ In 5%N (map fst surfs).
-Proof.
-  eexists. exists [(1, 5); (2, 7); (4, 9)]%N, [(Reflection, 5%N)]. eexists.
-  split; [vm_compute; reflexivity|].
-  split; [intros []; vm_compute; reflexivity|].
-  split; [right; right; right; left; reflexivity|].
-  split; [reflexivity|].
-  split.
-  - intros d k' Hd Hin. vm_compute in Hd. inversion Hd; subst d. vm_compute in Hin.
-    destruct Hin as [H|[H|[H|[H|[]]]]]; inversion H; subst; lia.
-  - split; [left; reflexivity|]. cbn. intros [H|[H|[H|[]]]]; discriminate.
-Qed.
+(* *2 PX 0 and +3 PX 0, the cell uses 3, de-duplication on *)
+Definition w_conflict_cards : list scard :=
+  [mkS "1" 1 5 []; mkS "*2" 1 7 []; mkS "+3" 1 7 []; mkS "4" 1 9 []].
